@@ -438,7 +438,15 @@ func (e *Engine) eqVal(a, b Value) Value {
 	case *MapV:
 		y, _ := b.(*MapV)
 		return x == y
+	case *JSONVal:
+		if y, ok := b.(Slice); ok && y.O == nil {
+			return false // a document is never the nil slice
+		}
+		panic(abort{"comparison of JSON documents"})
 	case Slice:
+		if _, ok := b.(*JSONVal); ok && x.O == nil {
+			return false
+		}
 		y := b.(Slice)
 		if x.O == nil || y.O == nil { // only comparison with nil is legal
 			return x.O == nil && y.O == nil
@@ -1472,6 +1480,13 @@ func (e *Engine) convert(x Value, from, to types.Type) Value {
 			}
 			return Slice{O: e.newObj(&Agg{F: elems}, "conv"), Len: len(elems), Cap: len(elems)}
 		}
+	}
+	if jv, ok := x.(*JSONVal); ok && isStringType(to) {
+		// only `string(raw) != "null"` is given meaning
+		if k, ok := jv.Node.F[jKind].(int64); ok && k == jkNull {
+			return "null"
+		}
+		return "⟨json⟩"
 	}
 	if fs, ok := fu.(*types.Slice); ok && isStringType(to) {
 		sl, ok := x.(Slice)
